@@ -78,7 +78,8 @@ let mdef = function
 let cmd = function
   | A "throw" -> CThrow | L [A "proc"; e] -> CProc (evt e) | L [A "enq"; e] -> CEnq (evt e) | x -> bad "cmd" x
 let plan = function L l -> List.map (function L [i; c] -> (nat i, cmd c) | x -> bad "plan" x) l | x -> bad "plan" x
-let op = function
+let rec op = function
+  | L [A "on"; k; o] -> OOn (nat k, op o)
   | L [A "start"; v; p] -> OStart (nats v, plan p)
   | L [A "stop"; p] -> OStop (plan p)
   | L [A "process"; e; v; p] -> OProcess (evt e, nats v, plan p)
@@ -86,6 +87,10 @@ let op = function
   | L [A "drain"; v; p] -> ODrain (nats v, plan p)
   | L [A "drain1"; v; p] -> ODrain1 (nats v, plan p)
   | L [A "reset"] -> OReset
+  | L [A "copy"; d; s] -> OCopy (nat d, nat s)
+  | L [A "assign"; d; s] -> OAssign (nat d, nat s)
+  | L [A "move"; d; s] -> OMove (nat d, nat s)
+  | L [A "saveload"; d; s] -> OSaveLoad (nat d, nat s)
   | x -> bad "op" x
 
 let ints l = String.concat "," (List.map (fun n -> string_of_int (int_of_nat n)) l)
@@ -179,11 +184,16 @@ let () =
         let a = List.fold_left (fun x f -> max x (int_of_nat f + 1)) acc fl in
         (match sub with Some sm -> max a (maxflag sm) | None -> a)) 0 sts in
     let nflags = maxflag md.md_root in
-    let rn = ref (init_rnode md.md_root) in
+    let w = ref (init_world md.md_root) in
     List.iter (fun o ->
-        let (rn', tr) = run_op cf md.md_root processor default_fuel !rn (op o) in
-        rn := rn';
+        let (w', tr) = run_wop cf md.md_root processor default_fuel !w (op o) in
+        w := w';
         List.iter print_item tr;
-        List.iter (fun (p, ids) -> Printf.printf "SNAP %s [%s]\n" (path p) (ints ids)) (snapshot md.md_root rn' []);
-        List.iteri (fun f (o, a) -> Printf.printf "FLAG %d or=%d and=%d\n" f (b2i o) (b2i a)) (flags_snapshot processor rn' (nat_of_int nflags));
+        List.iteri (fun k orn -> match orn with
+            | None -> ()
+            | Some rn ->
+              let tag = if k = 0 then "SNAP" else Printf.sprintf "SNAP@%d" k in
+              List.iter (fun (p, ids) -> Printf.printf "%s %s [%s]\n" tag (path p) (ints ids)) (snapshot md.md_root rn []);
+              if k = 0 then
+                List.iteri (fun f (o, a) -> Printf.printf "FLAG %d or=%d and=%d\n" f (b2i o) (b2i a)) (flags_snapshot processor rn (nat_of_int nflags))) !w;
         print_string "--\n") ops
